@@ -274,7 +274,17 @@ class ReplSet(SyncObjConsumer):
         Remove and return an arbitrary set element.
         Raises KeyError if the set is empty.
         """
-        return self.__data.pop()
+        if not self.__data:
+            raise KeyError('pop from an empty set')
+        # Which element set.pop() yields depends on the layout of the hash table, which differs between
+        # replicas with equal contents (built through the log / restored from a snapshot / other hash seed).
+        # Every replica has to remove the same one: take the smallest.
+        try:
+            item = min(self.__data)
+        except TypeError:
+            item = min(self.__data, key=lambda x: (type(x).__name__, repr(x)))
+        self.__data.remove(item)
+        return item
 
     @replicated
     def clear(self):
